@@ -8,6 +8,8 @@ CONSTANTS
   ServerRun = TRUE
   CasLoserErrors = TRUE
   ExitCheckAfterHandler = TRUE
+  CountAtAccept = TRUE
+  BeyondWait = 100
   PairMod = 4
   NTriple = 6
   HookMod = 4
